@@ -68,7 +68,7 @@ def model_ob(name, entry, defs, desc, L=12, ndebug=False, timeout=300, mem_gb=4,
 
 def real_ob(name, entry, defs, desc, L=12, copy=18, ndebug=False, timeout=300, mem_gb=4, **kw):
     lp = loops(L)
-    lp.update({"harness_roundtrip.0": 11, "harness_roundtrip.1": 12, "harness_roundtrip.2": 8, "harness_decode.0": L + 3, "harness_decode.1": 12,
+    lp.update({"harness_roundtrip.0": 11, "harness_roundtrip.1": 12, "harness_roundtrip.2": 8, "harness_decode.0": max(L + 3, 12), "harness_decode.1": max(L + 3, 12),
                "tb_mkdec.0": L + 2, "tb_mkdec.1": L + 2, "rt_run.0": 17})
     ob = dict(name="r_" + name + ("__ndebug" if ndebug else ""), harness=HR, entry=entry,
               defines=["LIBEVENT_VERIF_MIN_BUFFER_SIZE=64", "VP_OBJ=%d" % VP_OBJ, "VP_NO_REST"] + defs,
@@ -99,6 +99,14 @@ DECS = ["INT", "INT64", "TAG", "PEEK", "PEEK_LENGTH", "PAYLOAD_LENGTH", "HEADER"
 TAG_FIRST = ("TAG", "PEEK", "PEEK_LENGTH", "PAYLOAD_LENGTH", "HEADER", "CONSUME", "UNMARSHAL", "UINT", "UINT64", "FIXED", "STRING", "TIMEVAL")
 
 KF6_TEXT = ["dereference failure: pointer outside object bounds in *tmp_post_data"]
+
+def reach(kind, off, wl):
+    """which outcome witnesses exist for byte strings of exactly wl bytes (a tag/integer needs >= 1 byte behind the offset;
+    a 64-bit integer has <= 16 nibbles = 9 bytes, so with >= 9 bytes available decode_int64 never rejects)"""
+    d = []
+    if wl - off < 1: d.append("VP_NO_ACCEPT")
+    if kind in ("INT64I", "INT64") and wl - off >= 9: d.append("VP_NO_REJECT")
+    return d
 
 def obligations(tier):
     obs = []
@@ -134,18 +142,18 @@ def obligations(tier):
             for wk in range(0, wl + 1):
                 if isinstance(key, str):
                     obs.append(real_ob("dec_%s_L%d_K%d" % (key.lower(), wl, wk), "harness_decode",
-                                       ["DEC=DEC_" + key, "VP_WL=%d" % wl, "VP_WK=%d" % wk, "VP_L=%d" % max(wl, 1), "KF_EXCLUDE_TAG6"],
+                                       ["DEC=DEC_" + key, "VP_WL=%d" % wl, "VP_WK=%d" % wk, "VP_L=%d" % max(wl, 1), "KF_EXCLUDE_TAG6"] + reach(key, 0, wl),
                                        "decoder %s on arbitrary bytes of length %d split %d+%d over two exact-size reference chains (excluding the KF-C42-tag-overread inputs)" %
                                        (key, wl, wk, wl - wk), L=12))
                 else:
                     k, off = key
                     obs.append(real_ob("dec_%s_off%d_L%d_K%d" % (k.lower(), off, wl, wk), "harness_decode",
-                                       ["DEC=DEC_" + k, "VP_WL=%d" % wl, "VP_WK=%d" % wk, "VP_L=%d" % max(wl, 1), "VP_OFF=%d" % off],
+                                       ["DEC=DEC_" + k, "VP_WL=%d" % wl, "VP_WK=%d" % wk, "VP_L=%d" % max(wl, 1), "VP_OFF=%d" % off] + reach(k, off, wl),
                                        "decode_%s_internal(offset %d) on arbitrary bytes of length %d split %d+%d over two exact-size reference chains" %
                                        ("int" if k == "INTI" else "int64", off, wl, wk, wl - wk), L=12))
     for k in ("INT", "INT64"):
         for wl in ([6] if tier == "quick" else range(0, 13)):
-            obs.append(real_ob("dec_%s_single_L%d" % (k.lower(), wl), "harness_decode", ["DEC=DEC_" + k, "VP_WL=%d" % wl, "VP_WK=%d" % wl, "VP_L=%d" % max(wl, 1), "VP_SINGLE"],
+            obs.append(real_ob("dec_%s_single_L%d" % (k.lower(), wl), "harness_decode", ["DEC=DEC_" + k, "VP_WL=%d" % wl, "VP_WK=%d" % wl, "VP_L=%d" % max(wl, 1), "VP_SINGLE"] + reach(k, 0, wl),
                                "evtag_decode_%s on arbitrary bytes of length %d in one exact-size reference chain" % (k.lower(), wl), L=12))
     for k in ("TAG", "PEEK"):
         obs.append(real_ob("dec_%s_kf6" % k.lower(), "harness_decode", ["DEC=DEC_" + k, "VP_WL=6", "VP_WK=5", "VP_L=6", "KF_ONLY_TAG6"],
